@@ -414,3 +414,6 @@ func SQLRowCount(table, column, text string) int    { return -1 }
 func SQLWritesOutsideTx() int                       { return 0 }
 func SQLOpenTx() int                                { return 0 }
 func SQLConnTaken() bool                            { return false }
+
+// SQLInjected is the number of failures the row store injected so far (0 natively).
+func SQLInjected() int { return 0 }
